@@ -25,12 +25,21 @@ func VerifC17Stream() {
 		}
 	}
 	verifapi.Class("new-decoder-per-read-loses-read-ahead", true)
+	var held []*Message
+	defer func() {
+		// messages handed out earlier are still what they were after the later reads
+		for i, m := range held {
+			want, _ := json.Marshal(ids[i])
+			verifapi.Assert(string(m.ID) == string(want) && m.Request != nil && m.Request.Method == fmt.Sprint("m", i), "c17.message-intact-after-later-reads")
+		}
+	}()
 	for i := 0; i < n; i++ {
 		got, err := r.ReadMessage()
 		verifapi.Assert(err == nil, "c17.every-written-message-is-read")
 		if err != nil {
 			return
 		}
+		held = append(held, got)
 		want, _ := json.Marshal(ids[i])
 		verifapi.Assert(string(got.ID) == string(want), "c17.messages-arrive-in-order")
 		verifapi.Assert(got.Request != nil && got.Request.Method == fmt.Sprint("m", i), "c17.message-intact")
